@@ -703,5 +703,14 @@ def run(ctx):
 
 
 def replay(ctx, case):
+    """one stored case: a bare case dict, a corpus entry {note, case} or a replay file written by main.py"""
+    if case.get('kind') == 'unchecked-obligation':
+        for m in case.get('first_disagreements', []):
+            if isinstance(m.get('case'), dict) and 'pressure' in m['case']:
+                replay(ctx, m['case'])
+        return
+    if isinstance(case.get('case'), dict) and 'pressure' not in case:
+        case = case['case']
+    case = {k: v for k, v in case.items() if k not in ('phase', 'name')}
     with np.errstate(all='ignore'):
         eval_case(ctx, case)
